@@ -25,6 +25,8 @@ def from_bipartite_edgelist(edges):
     ~xgi.convert.hyperedges.from_hyperedge_list
     ~xgi.convert.hyperedges.to_hyperedge_list
     """
+    if len(edges) == 0:  # no incidences at all
+        return Hypergraph()
     if len(edges[0]) == 3:  # directed
         H = DiHypergraph()
         for n, e, d in edges:
